@@ -11,6 +11,18 @@ CHECKS = {
    technique='complete enumeration of the (isotope, level, mode) grid against the reference acceptance, then bounded exhaustive deviate-choice exploration per accepted configuration, model vs port',
    text='All 18360 (isotope, level 0..17, mode 1..20) requests are issued to model and port; for each of the ~1130 accepted ones initialisation (deviates consumed, toallevents, 4300-bin spectrum table) and all explorer executions (layers A+B1 quick, A+B2+C thorough) are compared with the transpiled reference; energy windows on window-capable modes.',
    note='Trusted: as C01; executions whose model decision margin is below tau (10x measured table noise) are counted ambiguous; mode 18 with one NME set.'),
+ 'C03': dict(level='exploration', ref='DESIGN.md §2 C03', engine='dx',
+   technique='bounded exhaustive deviate-choice exploration of every accepted configuration through decay0_generator with an energy-budget invariant; nested window chains',
+   text='Every execution of the explorer (complete accepted grid + nested energy windows, driven through the public generator class) is checked against the Q-value budget (=Q within 3 keV for neutrinoless modes, <=Q otherwise), the window on the lepton energy sum and the toallevents rules (>=1, =1 full range, monotone along nested windows). Independent of the reference model, so it also binds the BxDecay0-only paths and defects shared with the reference.',
+   note='Trusted: Q as reported by bbpars.Qbb (cross-checked by C02); tolerance 3 keV; thresholds discovered on the model (affine) or by bisection on the port.'),
+ 'C04': dict(level='exploration', ref='DESIGN.md §2 C04', engine='dx',
+   technique='bounded exhaustive deviate-choice exploration incl. extreme tails of every draw, well-formedness invariant and draw-horizon (livelock) detection',
+   text='All 69 background names and all accepted double-beta configurations (plus windows) are explored through decay0_generator with the tails 1e-12 / 1-1e-12 in the alphabet of every choice point (<=1 forced draw quick, <=2 thorough, plus edge coverage); every execution must end within 1e5 deviates under the fair default stream and yield a valid, time-ordered event with the requested label.',
+   note='Trusted: fairness of the counter-hash default stream; horizon 1e5 deviates; kinetic-energy bound 12 MeV.'),
+ 'C08': dict(level='exploration', ref='DESIGN.md §2 C08', engine='dx',
+   technique='the bounded exhaustive explorations of C01-C04 re-run on an ASan+UBSan+_GLIBCXX_ASSERTIONS build, sanitizer reports as oracle',
+   text='The same exhaustive edge-coverage exploration (every published name, every accepted double-beta configuration, windows; generator and plumbing entry points in the thorough tier) is executed against the sanitizer build of /repo in recover mode; any AddressSanitizer/UBSan report or fatal signal is a violation identified by kind and top bxdecay0 frame.',
+   note='Trusted: GCC ASan/UBSan; float division by zero excluded; uninitialised reads are outside ASan/UBSan.'),
 }
 NOT_YET = {
 }
